@@ -116,6 +116,13 @@ DATA = {
         dict(name='tree_threshold', kind='int_compare_const', file='polyply/src/nonbond_engine.py',
              func='NonBondEngine.add_positions', left='self.position_trees[-1].n', op='>'),
     ],
+    'Gen_seqtables': [
+        dict(name='ONE_LETTER_DNA', kind='string_dict', file='polyply/src/simple_seq_parsers.py', var='ONE_LETTER_DNA'),
+        dict(name='ONE_LETTER_RNA', kind='string_dict', file='polyply/src/simple_seq_parsers.py', var='ONE_LETTER_RNA'),
+        dict(name='ONE_LETTER_AA', kind='string_dict', file='polyply/src/simple_seq_parsers.py', var='ONE_LETTER_AA'),
+        dict(name='circular_strip_guard', kind='guard_of_assign', file='polyply/src/simple_seq_parsers.py', func='parse_ig',
+             target='seq_graph.nodes[0]["resname"]'),
+    ],
     'Gen_dna': [
         dict(name='BASE_LIBRARY', kind='string_dict', file='polyply/src/gen_dna.py', var='BASE_LIBRARY'),
     ],
